@@ -278,6 +278,22 @@ REWRITES = [('case', rw_case), ('blanks', rw_blanks), ('comments', rw_comments),
             ('call', rw_call), ('next', rw_next), ('labels', rw_labels)]
 
 
+# every place an identifier can be written in (declaration and use sites): the case rewriting respells all of them
+SPECIAL = [
+    'DIM things(3), cnt AS INTEGER, nm$\nthings(1) = 5: cnt = 1: nm$ = "x"\nCALL show(things(), cnt, nm$)\nPRINT twice(2); half!(3)\nEND\n'
+    'SUB show (items(), n AS INTEGER, t$)\n  STATIC calls\n  calls = calls + 1\n  PRINT items(1); n; t$; calls\nEND SUB\n'
+    'FUNCTION twice (v)\n  twice = v * 2\nEND FUNCTION\nFUNCTION half! (v AS SINGLE)\n  half! = v / 2\nEND FUNCTION\n',
+    'TYPE point\n  xpos AS INTEGER\n  ypos AS LONG\nEND TYPE\nDIM SHARED origin AS point, grid(2) AS point\norigin.xpos = 3: grid(1).ypos = 70000\n'
+    'CALL move(origin, grid())\nPRINT origin.xpos; grid(1).ypos\nEND\nSUB move (p AS point, cells() AS point)\n  p.xpos = p.xpos + 1\n'
+    '  cells(1).ypos = cells(1).ypos + origin.xpos\nEND SUB\n',
+    'DEFINT A-C\nDEFSTR S\nCONST limit = 3, tag$ = "t"\nalpha = 2: sname = "n"\nFOR count = 1 TO limit\n  IF count = alpha THEN GOTO skip\n'
+    '  PRINT count; sname; tag$\nskip:\nNEXT count\nGOSUB finish\nEND\nfinish:\nPRINT "done"\nRETURN\n'.replace('CONST limit = 3, tag$ = "t"', 'CONST limit = 3\nCONST tag$ = "t"'),
+    'DIM arr1%(2), Total&\nDATA 4, 5, 6\nFOR idx% = 0 TO 2\n  READ arr1%(idx%)\n  Total& = Total& + arr1%(idx%)\nNEXT\nPRINT Total&\n'
+    'SELECT CASE Total&\nCASE 15\n  PRINT "fifteen"\nCASE ELSE\n  PRINT "other"\nEND SELECT\n',
+    'ON ERROR GOTO handler\nx% = 1 \\ zero%\nPRINT "after"\nEND\nhandler:\nPRINT ERR\nRESUME NEXT\n',
+]
+
+
 def task(t):
     return real.big_frame(lambda: _task(t))
 
@@ -289,7 +305,9 @@ def _task(t):
     out = {'edits': [], 'meta': []}
     base = progs.load_repo_programs(core.REPO)
     for _ in range(6):
-        if rng.random() < 0.6:
+        if rng.random() < 0.25:
+            src, inputs = rng.choice(SPECIAL), []
+        elif rng.random() < 0.6:
             feats = set(progs.ALL_FEATURES) - {'input'} if rng.random() < 0.5 else None
             src, inputs = progs.gen_program(rng, size=rng.choice([3, 5, 8]), depth=rng.choice([1, 2]), features=feats)
         else:
